@@ -441,6 +441,9 @@ pub struct TwoLevelIterator {
 
     /// The block handle used to get the data block in the [`TwoLevelIterator::data_block`] field.
     data_block_handle: Option<BlockHandle>,
+
+    /// The first error that cut a `next` or `prev` call short.
+    maybe_error: Option<RainDBError>,
 }
 
 /// Private methods
@@ -455,6 +458,7 @@ impl TwoLevelIterator {
             index_block_iter,
             maybe_data_block_iter: None,
             data_block_handle: None,
+            maybe_error: None,
         }
     }
 
@@ -614,6 +618,9 @@ impl RainDbIterator for TwoLevelIterator {
                     error: {}",
                     error
                 );
+                if self.maybe_error.is_none() {
+                    self.maybe_error = Some(error.into());
+                }
                 return None;
             }
         }
@@ -644,6 +651,9 @@ impl RainDbIterator for TwoLevelIterator {
                     error: {}",
                     error
                 );
+                if self.maybe_error.is_none() {
+                    self.maybe_error = Some(error.into());
+                }
                 return None;
             }
         }
@@ -662,6 +672,10 @@ impl RainDbIterator for TwoLevelIterator {
         }
 
         self.maybe_data_block_iter.as_ref().unwrap().current()
+    }
+
+    fn status(&self) -> Option<Self::Error> {
+        self.maybe_error.clone()
     }
 }
 
